@@ -17,6 +17,10 @@
 (*                                                                         *)
 (* Statements:                                                             *)
 (*  [k |-> "mark", b |-> Byte]        .db b                                *)
+(*  [k |-> "note", d |-> STRING]      a comment over several lines, one    *)
+(*                                    of which reads like the directive d  *)
+(*                                    (.else, .endif, .ifdef DX): no       *)
+(*                                    statement, in taken and skipped text *)
 (*  [k |-> "if", c |-> Seq(Tok)]      .if <condition>                      *)
 (*  [k |-> "ifdef", n |-> STRING]     .ifdef n     [k |-> "ifndef", ...]   *)
 (*  [k |-> "else"]  [k |-> "endif"]                                        *)
@@ -161,6 +165,7 @@ MAsm(prog, st, cfg) ==
   ELSE LET s == prog[st.i]
            nx == [st EXCEPT !.i = @ + 1] IN
     IF s.k = "mark" THEN MAsm(prog, [nx EXCEPT !.out = Append(@, s.b)], cfg)
+    ELSE IF s.k = "note" THEN MAsm(prog, nx, cfg)       \* a comment is no token of the language, whatever it quotes
     ELSE IF s.k = "define" THEN
        (IF s.n \in DOMAIN st.defs THEN MErr(st)
         ELSE MAsm(prog, [nx EXCEPT !.defs = (s.n :> s.v) @@ @], cfg))
